@@ -141,24 +141,58 @@ class Engine:
         frs = getattr(self.c, "trusted_fragments", None) or []
         if not frs:
             return body
-        body = list(body)
-        for fr in frs:
-            texts = [ast.unparse(s).split("\n")[0] for s in body]
-            try:
+        import copy as _copy
+        body = _copy.deepcopy(list(body))
+        for n in ast.walk(ast.Module(body=body, type_ignores=[])):
+            pass
+        # loop ordinals are keyed by node identity: recompute them on the copied tree (same order, same fingerprints)
+        holder = ast.FunctionDef(name=self.fn.node.name, args=self.fn.node.args, body=body, decorator_list=[], lineno=self.fn.node.lineno)
+        self.loops = {id(n): (i, fp) for i, n, fp in extract.loops_of(holder)}
+
+        def replace_in(stmts, fr):
+            texts = [ast.unparse(s).split("\n")[0] for s in stmts]
+            if fr["first"] in texts:
                 a = texts.index(fr["first"])
-                b = max(k for k, t in enumerate(texts) if t == fr["last"])
-            except ValueError:
+                later = [k for k, t in enumerate(texts) if t == fr["last"] and k >= a]
+                if later:
+                    b = max(later)
+                    frag = stmts[a:b + 1]
+                    sha = hashlib.sha256("\n".join(ast.dump(s, include_attributes=False) for s in frag).encode()).hexdigest()
+                    self.notes.append(f"trusted fragment {fr['name']}: lines {frag[0].lineno}-{frag[-1].end_lineno} sha256 {sha}")
+                    if fr.get("sha256") not in (None, sha):
+                        raise OutOfSubset(f"trusted fragment `{fr['name']}` (lines {frag[0].lineno}-{frag[-1].end_lineno}) was edited: "
+                                          f"sha256 {sha[:16]} != pinned {fr['sha256'][:16]}; its assumed postcondition no longer applies")
+                    marker = ast.Pass()
+                    marker._fragment = fr
+                    marker.lineno = frag[0].lineno
+                    stmts[a:b + 1] = [marker]
+                    return True
+            for s_ in stmts:
+                for fld in ("body", "orelse", "finalbody"):
+                    sub = getattr(s_, fld, None)
+                    if isinstance(sub, list) and sub and not isinstance(s_, (ast.FunctionDef, ast.ClassDef)):
+                        if replace_in(sub, fr):
+                            return True
+            return False
+
+        for fr in frs:
+            if not replace_in(body, fr):
                 raise OutOfSubset(f"trusted fragment `{fr['name']}` not found (first/last statement changed)")
-            frag = body[a:b + 1]
-            sha = hashlib.sha256("\n".join(ast.dump(s, include_attributes=False) for s in frag).encode()).hexdigest()
-            self.notes.append(f"trusted fragment {fr['name']}: lines {frag[0].lineno}-{frag[-1].end_lineno} sha256 {sha}")
-            if fr.get("sha256") not in (None, sha):
-                raise OutOfSubset(f"trusted fragment `{fr['name']}` (lines {frag[0].lineno}-{frag[-1].end_lineno}) was edited: "
-                                  f"sha256 {sha[:16]} != pinned {fr['sha256'][:16]}; its assumed postcondition no longer applies")
-            marker = ast.Pass()
-            marker._fragment = fr
-            marker.lineno = frag[0].lineno
-            body[a:b + 1] = [marker]
+        # loops inside fragments disappear: keep the ordinals of the ORIGINAL function for the remaining loops
+        orig = {fp_i: None for fp_i in ()}
+        remaining = extract.loops_of(ast.FunctionDef(name="f", args=self.fn.node.args, body=body, decorator_list=[], lineno=0))
+        original = extract.loops_of(self.fn.node)
+        # map remaining loops (by order and fingerprint) onto original ordinals
+        oi = 0
+        newmap = {}
+        for _, n, fp in remaining:
+            while oi < len(original) and original[oi][2] != fp:
+                oi += 1
+            if oi >= len(original):
+                raise OutOfSubset("cannot align loops after removing trusted fragments")
+            newmap[id(n)] = (original[oi][0], fp)
+            oi += 1
+        self.loops = newmap
         return body
 
     def _exec_fragment(self, fr, st):
@@ -473,7 +507,8 @@ class Engine:
                     s2.assume(g)
                 if var0 is not None:
                     var1 = lc.variant(self, s2, None)
-                    self.oblige(s2, f"dec[{ordn}]", _lex_decreases(var0, var1), s.lineno, kind="dec")
+                    cont = self.truth(self.ev(s.test, s2.clone()))     # the variant must decrease only if the loop goes on
+                    self.oblige(s2, f"dec[{ordn}]", z3.Implies(cont, _lex_decreases(var0, var1)), s.lineno, kind="dec")
             elif kind == BRK:
                 outs.append((NEXT, s2, None))
             else:
@@ -881,7 +916,7 @@ class Engine:
             if isinstance(b.ty, TEmpty):
                 return a
             if a.ty == b.ty:
-                return self.list_concat(a, b)
+                return self.list_concat(a, b, st)
         if isinstance(op, ast.Add) and isinstance(a.ty, TEmpty) and isinstance(b.ty, TList):
             return b
         r = self.reg.binop(self, st, op, a, b, node)
@@ -889,12 +924,21 @@ class Engine:
             return r
         raise OutOfSubset(f"binary {type(op).__name__} on {a.ty}, {b.ty}")
 
-    def list_concat(self, a, b):
+    def list_concat(self, a, b, st=None):
+        """a + b as a fresh list constant characterised pointwise (a closed-form Lambda term would leave quantified
+        facts about its elements without usable E-matching patterns)"""
         ty = a.ty
+        la, lb = ty.len(a.t), ty.len(b.t)
+        if st is None:
+            i = z3.Int(fresh_name("i"))
+            return Val(ty, ty.mk(la + lb, z3.Lambda([i], z3.If(i < la, ty.at(a.t)[i], ty.at(b.t)[i - la]))))
+        cat = ty.fresh("concat")
         i = z3.Int(fresh_name("i"))
-        la = ty.len(a.t)
-        arr = z3.Lambda([i], z3.If(i < la, ty.at(a.t)[i], ty.at(b.t)[i - la]))
-        return Val(ty, ty.mk(la + ty.len(b.t), arr))
+        st.assume(ty.len(cat.t) == la + lb)
+        st.assume(z3.ForAll([i], z3.Implies(z3.And(0 <= i, i < la), ty.at(cat.t)[i] == ty.at(a.t)[i]), patterns=[ty.at(cat.t)[i]]))
+        st.assume(z3.ForAll([i], z3.Implies(z3.And(la <= i, i < la + lb), ty.at(cat.t)[i] == ty.at(b.t)[i - la]), patterns=[ty.at(cat.t)[i]]))
+        self.reg._hook("concat_facts", self, st, ty, a.t, b.t, cat.t)
+        return cat
 
     def e_Compare(self, e, st):
         left = self.ev(e.left, st)
